@@ -290,6 +290,14 @@ def main(prop, tier, seed, replay=None):
         agg = Aggregate(prop, tier, seed, mod, cases, results, crashes, hangs, scratch)
         # confirm hangs/crashes alone (10x budget for hangs)
         agg.confirm_alone(run_cases, case_timeout, extra_env)
+        # a case that is in no list at all (its worker was lost without a trace, seen once on a loaded machine) is run again, once
+        lost = [c for c in cases if c["id"] not in agg.results and c["id"] not in agg.crashes and c["id"] not in agg.hangs]
+        if lost:
+            agg.notes.append("%d case(s) without any record were run again: %s" % (len(lost), ", ".join(c["id"] for c in lost[:5])))
+            r3, c3, h3 = run_cases(prop, lost, mod.FLAVOUR, scratch, case_timeout, extra_env=extra_env, nproc=min(NPROC, len(lost)))
+            agg.results.update(r3)
+            agg.crashes, agg.hangs = c3, h3
+            agg.confirm_alone(run_cases, case_timeout, extra_env)
         if hasattr(mod, "finalize"):
             mod.finalize(agg)
         status = agg.verdict(time.time() - t0, replay_mode=bool(replay))
